@@ -43,27 +43,27 @@ type tierCfg struct {
 	Workers       int
 	WorkerTimeout time.Duration
 	Race          bool
-	PerRunProcess bool // one fresh process per run (race attribution)
+	PerRunProcess bool // one fresh OS process per simulated run: a run is a function of its scenario alone (no caches warmed by an earlier scenario), and a race report belongs to exactly one run
 	CLI           bool
 	Instrument    bool // build against an ast-instrumented scratch copy
 }
 
 var tiers = map[string]map[string]tierCfg{
 	"C06": {
-		"quick":    {Runs: 48, Workers: 16, WorkerTimeout: 8 * time.Minute, CLI: true},
-		"thorough": {Runs: 1600, Workers: 16, WorkerTimeout: 3 * time.Hour, CLI: true},
+		"quick":    {Runs: 48, Workers: 16, WorkerTimeout: 8 * time.Minute, CLI: true, PerRunProcess: true},
+		"thorough": {Runs: 1600, Workers: 16, WorkerTimeout: 3 * time.Hour, CLI: true, PerRunProcess: true},
 	},
 	"C07": {
-		"quick":    {Runs: 96, Workers: 16, WorkerTimeout: 8 * time.Minute, CLI: true},
-		"thorough": {Runs: 3200, Workers: 16, WorkerTimeout: 3 * time.Hour, CLI: true},
+		"quick":    {Runs: 96, Workers: 16, WorkerTimeout: 8 * time.Minute, CLI: true, PerRunProcess: true},
+		"thorough": {Runs: 3200, Workers: 16, WorkerTimeout: 3 * time.Hour, CLI: true, PerRunProcess: true},
 	},
 	"C10": {
-		"quick":    {Runs: 64, Workers: 16, WorkerTimeout: 8 * time.Minute},
-		"thorough": {Runs: 2400, Workers: 16, WorkerTimeout: 3 * time.Hour},
+		"quick":    {Runs: 64, Workers: 16, WorkerTimeout: 8 * time.Minute, PerRunProcess: true},
+		"thorough": {Runs: 2400, Workers: 16, WorkerTimeout: 3 * time.Hour, PerRunProcess: true},
 	},
 	"C11": {
-		"quick":    {Runs: 32, Workers: 16, WorkerTimeout: 8 * time.Minute},
-		"thorough": {Runs: 1200, Workers: 16, WorkerTimeout: 3 * time.Hour},
+		"quick":    {Runs: 32, Workers: 16, WorkerTimeout: 8 * time.Minute, PerRunProcess: true},
+		"thorough": {Runs: 1200, Workers: 16, WorkerTimeout: 3 * time.Hour, PerRunProcess: true},
 	},
 	"C12": {
 		"quick":    {Runs: 192, Workers: 16, WorkerTimeout: 8 * time.Minute, Race: true, PerRunProcess: true, Instrument: true},
